@@ -34,14 +34,15 @@ func (e *Engine) loopClauses(s ast.Stmt, kind string) []*Clause {
 
 // havoc set of a loop body
 type havocSet struct {
-	arr    map[string]bool // array mode: "@consumed", "@sent", "@closed", "@nextid"
+	ghosts map[string]*Term // refs whose ghost abstract state (view) is havoced
+	arr    map[string]bool  // array mode: "@consumed", "@sent", "@closed", "@nextid"
 	vars   map[types.Object]bool
 	mem    map[string]bool  // scalar mem keys
 	fields map[string]VTerm // refs whose fields are all havoced
 }
 
 func (e *Engine) collectHavoc(nodes []ast.Node, st *State) *havocSet {
-	h := &havocSet{vars: map[types.Object]bool{}, mem: map[string]bool{}, fields: map[string]VTerm{}, arr: map[string]bool{}}
+	h := &havocSet{vars: map[types.Object]bool{}, mem: map[string]bool{}, fields: map[string]VTerm{}, arr: map[string]bool{}, ghosts: map[string]*Term{}}
 	var streamOf func(x ast.Expr) (VStream, bool)
 	streamOf = func(x ast.Expr) (vs VStream, ok bool) {
 		defer func() {
@@ -60,6 +61,30 @@ func (e *Engine) collectHavoc(nodes []ast.Node, st *State) *havocSet {
 		vs, ok = v.(VStream)
 		return
 	}
+	declaredInside := func(x ast.Expr) bool {
+		for {
+			switch y := ast.Unparen(x).(type) {
+			case *ast.IndexExpr:
+				x = y.X
+				continue
+			case *ast.SelectorExpr:
+				x = y.X
+				continue
+			case *ast.Ident:
+				o := e.info().ObjectOf(y)
+				if o == nil {
+					return false
+				}
+				for _, n := range nodes {
+					if n != nil && !isNilNode(n) && o.Pos() >= n.Pos() && o.Pos() <= n.End() {
+						return true
+					}
+				}
+				return false
+			}
+			return false
+		}
+	}
 	markRecv := func(x ast.Expr) {
 		if e.arrayMode {
 			h.arr["@consumed"] = true
@@ -67,7 +92,7 @@ func (e *Engine) collectHavoc(nodes []ast.Node, st *State) *havocSet {
 		}
 		if s, ok := streamOf(x); ok {
 			h.mem["consumed:"+s.ID.String()] = true
-		} else {
+		} else if !declaredInside(x) {
 			unsup("cannot resolve channel expression %s in loop body", e.src(x))
 		}
 	}
@@ -80,7 +105,7 @@ func (e *Engine) collectHavoc(nodes []ast.Node, st *State) *havocSet {
 		if s, ok := streamOf(x); ok {
 			h.mem["sent:"+s.ID.String()] = true
 			h.mem["closed:"+s.ID.String()] = true
-		} else {
+		} else if !declaredInside(x) {
 			unsup("cannot resolve channel expression %s in loop body", e.src(x))
 		}
 	}
@@ -187,6 +212,31 @@ func (e *Engine) collectHavoc(nodes []ast.Node, st *State) *havocSet {
 					if c != nil && len(c.byKind("modifies", "")) > 0 {
 						markLHS(&ast.SelectorExpr{X: se.X, Sel: ast.NewIdent("_all")})
 					}
+					// interface method with an interface-level contract that modifies the object's ghost state
+					if msig := fn.Type().(*types.Signature); msig.Recv() != nil {
+						if nn, ok := msig.Recv().Type().(*types.Named); ok {
+							if _, isIface := nn.Underlying().(*types.Interface); isIface {
+								ic := e.w.IfaceContracts[shortPkg(fn.Pkg().Path())+"."+nn.Obj().Name()+"."+fn.Name()]
+								if ic != nil && len(ic.byKind("modifies", "")) > 0 {
+									tmp := st.clone()
+									nob := len(e.obls)
+									func() {
+										defer func() {
+											if r := recover(); r != nil {
+												if _, isU := r.(unsupported); !isU {
+													panic(r)
+												}
+											}
+										}()
+										if b, ok := e.eval(se.X, tmp).(VTerm); ok {
+											h.ghosts[b.T.String()] = b.T
+										}
+									}()
+									e.obls = e.obls[:nob]
+								}
+							}
+						}
+					}
 				}
 			}
 			// call of a function-typed variable
@@ -208,6 +258,16 @@ func (e *Engine) collectHavoc(nodes []ast.Node, st *State) *havocSet {
 		}
 	}
 	return h
+}
+
+func isNilNode(n ast.Node) bool {
+	switch x := n.(type) {
+	case ast.Expr:
+		return x == nil
+	case ast.Stmt:
+		return x == nil
+	}
+	return n == nil
 }
 
 func typeHasChan(t types.Type) bool {
@@ -266,6 +326,9 @@ func (e *Engine) applyHavoc(h *havocSet, st *State) {
 	for _, b := range h.fields {
 		e.havocFields(st, b)
 	}
+	for _, k := range sortedKeys(h.ghosts) {
+		e.havocGhostView(st, h.ghosts[k])
+	}
 }
 
 func (e *Engine) havocFields(st *State, b VTerm) {
@@ -285,6 +348,8 @@ func (e *Engine) havocFields(st *State, b VTerm) {
 		v := e.freshValue(f.Name(), f.Type(), st)
 		switch vv := v.(type) {
 		case VSlice:
+			st.memV[key] = vv
+		case VMap:
 			st.memV[key] = vv
 		case VStream:
 			st.mem[key] = vv.ID
@@ -321,6 +386,18 @@ func (e *Engine) evalInvariants(s ast.Stmt, st *State, pos token.Pos) []*Term {
 
 func (e *Engine) assertInvariants(s ast.Stmt, st *State, pos token.Pos, phase string) {
 	ord := e.loopOrdinal(s)
+	if phase == "preserve" {
+		for _, cl := range e.loopClauses(s, "use") {
+			var end token.Pos
+			switch l := s.(type) {
+			case *ast.ForStmt:
+				end = l.Body.Rbrace
+			case *ast.RangeStmt:
+				end = l.Body.Rbrace
+			}
+			e.useLemma(cl.Expr, e.specEnvAt(st, end), st, cl.Where)
+		}
+	}
 	for j, cl := range e.loopClauses(s, "invariant") {
 		env := e.specEnvAt(st, pos)
 		t := term(e.evalSpec(cl.Expr, env))
@@ -351,7 +428,39 @@ func (e *Engine) knownStreams(st *State) map[string]*Term {
 	return m
 }
 
+// `for i := 0; i < workers; i++ { wg.Add(1); go func() { ... }() }`: worker pool over a shared job channel.
+// The workers are sequentialised: one process runs the worker body (all jobs); interleavings are not modelled.
+func (e *Engine) spawnLoop(x *ast.ForStmt) *ast.GoStmt {
+	var g *ast.GoStmt
+	for _, s := range x.Body.List {
+		switch y := s.(type) {
+		case *ast.GoStmt:
+			if _, ok := ast.Unparen(y.Call.Fun).(*ast.FuncLit); !ok || g != nil {
+				return nil
+			}
+			g = y
+		case *ast.ExprStmt:
+			c, ok := y.X.(*ast.CallExpr)
+			if !ok {
+				return nil
+			}
+			se, ok := c.Fun.(*ast.SelectorExpr)
+			if !ok || se.Sel.Name != "Add" {
+				return nil
+			}
+		default:
+			return nil
+		}
+	}
+	return g
+}
+
 func (e *Engine) execFor(x *ast.ForStmt, st *State) []Out {
+	if g := e.spawnLoop(x); g != nil {
+		e.notes["worker pool sequentialised: the "+e.src(x)+" loop spawns workers over a shared job channel; one worker process is verified, interleavings of several workers are not modelled"] = true
+		st.procs = append(st.procs, g)
+		return []Out{{st: st}}
+	}
 	if x.Init != nil {
 		st = e.execStmt(x.Init, st)[0].st
 	}
@@ -418,6 +527,8 @@ func (e *Engine) execRange(x *ast.RangeStmt, st *State) []Out {
 		return e.execRangeChan(x, st)
 	case *types.Slice:
 		return e.execRangeSlice(x, st, u)
+	case *types.Map:
+		return e.execRangeMap(x, st)
 	}
 	unsup("range over %s at %s", t, e.src(x))
 	return nil
@@ -587,6 +698,71 @@ func (e *Engine) execRangeSlice(x *ast.RangeStmt, st *State, u *types.Slice) []O
 	body := head.clone()
 	body.assume(mkCmp("<", idx, sl.Len))
 	bind(body, idx)
+	for _, o := range e.execBlock(x.Body.List, body) {
+		switch o.kind {
+		case fBreak:
+			o.kind = fNormal
+			results = append(results, o)
+		case fReturn:
+			results = append(results, o)
+		default:
+			o.st.vars[iv] = VTerm{T: mkArith("+", idx, mkInt(1)), Typ: types.Typ[types.Int]}
+			e.assertInvariants(x, o.st, pos, "preserve")
+		}
+	}
+	return results
+}
+
+// range over a map: the keys are visited in the order of an arbitrary fixed enumeration mapkey(H, 0..mapcard(H)-1)
+func (e *Engine) execRangeMap(x *ast.RangeStmt, st *State) []Out {
+	m, ok := e.eval(x.X, st).(VMap)
+	if !ok {
+		unsup("range over non-map value")
+	}
+	ktag := sortTag(m.Has.Sort.key())
+	if _, ok := prelude["mapkey_"+ktag]; !ok {
+		unsup("range over a map with key sort %s", ktag)
+	}
+	card := mkApp("mapcard_"+ktag, SInt, m.Has)
+	ord := e.loopOrdinal(x)
+	iv, ok := e.loopIdx[x]
+	if !ok {
+		iv = types.NewVar(x.Pos(), e.pkg().Types, fmt.Sprintf("idx%d", ord), types.Typ[types.Int])
+		e.loopIdx[x] = iv
+	}
+	if len(e.loopClauses(x, "invariant")) == 0 {
+		unsup("loop without invariant at %s (loop#%d)", e.src(x), ord)
+	}
+	pos := x.Body.Lbrace + 1
+	st.vars[iv] = VTerm{T: mkInt(0), Typ: types.Typ[types.Int]}
+	e.assertInvariants(x, st, pos, "establish")
+	h := e.collectHavoc([]ast.Node{x.Body}, st)
+	h.vars[iv] = true
+	head := st.clone()
+	e.applyHavoc(h, head)
+	idx := term(head.vars[iv])
+	head.assume(mkAnd(mkCmp("<=", mkInt(0), idx), mkCmp("<=", idx, card)))
+	for _, t := range e.evalInvariants(x, head, pos) {
+		head.assume(t)
+	}
+	var results []Out
+	exit := head.clone()
+	exit.assume(mkCmp(">=", idx, card))
+	results = append(results, Out{st: exit})
+	body := head.clone()
+	body.assume(mkCmp("<", idx, card))
+	key := mkApp("mapkey_"+ktag, m.Has.Sort.key(), m.Has, idx)
+	if x.Key != nil {
+		if id, ok := x.Key.(*ast.Ident); ok && id.Name != "_" {
+			body.vars[e.info().Defs[id]] = e.wrap(key, m.Key)
+		}
+	}
+	if x.Value != nil {
+		if id, ok := x.Value.(*ast.Ident); ok && id.Name != "_" {
+			v, _ := e.mapGet(m, key)
+			body.vars[e.info().Defs[id]] = v
+		}
+	}
 	for _, o := range e.execBlock(x.Body.List, body) {
 		switch o.kind {
 		case fBreak:
